@@ -367,6 +367,11 @@ class Scheduler:
         else:
             self.task_states[tid] = LocalStatus.COMPLETED
         finally:
+            if proc is not None and proc.returncode is None:
+                # A cancel request can interrupt the kill sequence of a task that
+                # exceeded its time limit. Never hand the core back while the
+                # process is still alive.
+                await self._gentle_kill(proc)
             if acquired:
                 self.cores_ressource.release()
 
